@@ -155,7 +155,7 @@ func createProcess(p *Process, isMethod bool) {
 		p.NamedPipeOut = "out"
 	case "err":
 		p.Stdout.SetDataType(types.Generic)
-		p.Stdout = p.Next.Stderr
+		p.Stdout = p.Parent.Stderr
 	case "out":
 		//p.Stderr.Writeln([]byte("Invalid usage of named pipes: stdout defaults to <out>."))
 	default:
